@@ -17,6 +17,63 @@ func init() {
 var c03Guarded = map[string]bool{"buffers": true, "bufferStartTimes": true, "bufferRecordCounts": true, "bufferSchemas": true}
 
 func runC03(c *Ctx) {
+	validFillRule(c, "C03.VALIDFILL")
+	c.Rule("C03.GATHER", "SIBLING: every application of a row permutation / selection (a loop over an index list that fills a freshly made slice) is a gather — result[position] = source[indices[position]] — for data columns and validity bitmaps alike; a scatter (result[indices[position]] = source[position]) applies the inverse permutation, so values and their NULL flags end up on different rows")
+	{
+		nG := 0
+		for _, fn := range c.P.FuncsIn("internal/ingest") {
+			if !strings.Contains(c.P.Pos(fn.Pos()), "arrow_writer.go") {
+				continue
+			}
+			for _, in := range instrs(fn, false) {
+				st, ok := in.(*ssa.Store)
+				if !ok || !blockInCycle(st.Block()) {
+					continue
+				}
+				dst, ok := st.Addr.(*ssa.IndexAddr)
+				if !ok {
+					continue
+				}
+				if _, fresh := dst.X.(*ssa.MakeSlice); !fresh {
+					continue
+				}
+				// the stored value is an element of another slice
+				ld, ok := st.Val.(*ssa.UnOp)
+				if !ok || ld.Op != token.MUL {
+					continue
+				}
+				src, ok := ld.X.(*ssa.IndexAddr)
+				if !ok {
+					continue
+				}
+				// is one of the two indexes an element of an []int list, the other the loop position?
+				elemOfIntList := func(v ssa.Value) bool {
+					l, ok := v.(*ssa.UnOp)
+					if !ok || l.Op != token.MUL {
+						return false
+					}
+					ia, ok := l.X.(*ssa.IndexAddr)
+					return ok && ia.X.Type().String() == "[]int"
+				}
+				isPos := func(v ssa.Value) bool {
+					if bo, ok := v.(*ssa.BinOp); ok && bo.Op == token.ADD {
+						v = bo.X
+					}
+					ph, ok := v.(*ssa.Phi)
+					return ok && ph.Comment == "rangeindex"
+				}
+				switch {
+				case isPos(dst.Index) && elemOfIntList(src.Index):
+					nG++
+					c.OK("C03.GATHER", fmt.Sprintf("%s|permutation-site#%d", fn.Name(), nG), st.Pos(), "gather: result[position] = source[indices[position]]")
+				case elemOfIntList(dst.Index) && isPos(src.Index):
+					nG++
+					c.Bad("C03.GATHER", fmt.Sprintf("%s|permutation-site#%d", fn.Name(), nG), st.Pos(), "%s scatters (result[indices[i]] = source[i]) where every other permutation site gathers: this slice is reordered by the INVERSE permutation — for a sort that is not its own inverse (three or more rows out of order) a row written with NULL is stored with a zero value and another row's value is stored as NULL", fn.Name())
+				}
+			}
+		}
+		c.Floor("C03.GATHER", 8, "applyPermutation's arms and the validity reorderings")
+	}
 	p := c.P
 	c.Rule("C03.LOCK", "LOCK: every read or write of bufferShard.buffers / bufferStartTimes / bufferRecordCounts / bufferSchemas happens with that shard's mu held (must-hold dataflow over the CFG); functions named *Locked are analysed as entered with the lock held, must return with it held on every path, and are called only with it held")
 	c.Rule("C03.EXTRACT", "FIELD: wherever a key is deleted from shard.buffers it is deleted from the three companion maps before the lock is released")
@@ -419,3 +476,72 @@ func runC03(c *Ctx) {
 
 // c03TypeExceptions: switches that deliberately handle fewer types, with the reason.
 var c03TypeExceptions = map[string]string{}
+
+// validFillRule: see the rule text; shared by C03 (nulls preserved through the flush) and C01 (values stored as written).
+func validFillRule(c *Ctx, rule string) {
+	c.Rule(rule, "PATH: in mergeBatches, once the destination window of a column's merged validity bitmap has been taken for a batch, every path to the next iteration writes it — copies the batch's bitmap or fills it with true; a path that leaves it untouched leaves the zero value, i.e. every value of that column in that batch becomes NULL in the stored file")
+	if fn := c.MustFunc(rule, "(*internal/ingest.ArrowBuffer).mergeBatches"); fn != nil {
+		n := 0
+		for _, in := range instrs(fn, false) {
+			dest, ok := in.(*ssa.Slice)
+			if !ok || dest.Type().String() != "[]bool" || !blockInCycle(dest.Block()) {
+				continue
+			}
+			// the window must be cut out of a map-held bitmap
+			if _, isLookup := dest.X.(*ssa.Lookup); !isLookup {
+				if ld, ok := dest.X.(*ssa.UnOp); !ok || ld.Op != token.MUL {
+					continue
+				} else if _, ok := ld.X.(*ssa.IndexAddr); ok {
+					continue
+				}
+			}
+			n++
+			writes := map[*ssa.BasicBlock]bool{}
+			for _, r := range *dest.Referrers() {
+				cl, ok := r.(*ssa.Call)
+				if !ok {
+					continue
+				}
+				if b, ok := cl.Call.Value.(*ssa.Builtin); ok {
+					if (b.Name() == "copy" && cl.Call.Args[0] == ssa.Value(dest)) || b.Name() == "len" {
+						writes[cl.Block()] = true
+					}
+				}
+			}
+			// nearest enclosing loop header
+			var header *ssa.BasicBlock
+			for b := dest.Block(); b != nil && header == nil; b = b.Idom() {
+				for _, pr := range b.Preds {
+					if b.Dominates(pr) {
+						header = b
+					}
+				}
+			}
+			skips := false
+			if header != nil {
+				seen := map[*ssa.BasicBlock]bool{}
+				var dfs func(b *ssa.BasicBlock)
+				dfs = func(b *ssa.BasicBlock) {
+					if seen[b] || writes[b] {
+						return
+					}
+					seen[b] = true
+					if b == header {
+						skips = true
+						return
+					}
+					for _, sc := range b.Succs {
+						dfs(sc)
+					}
+				}
+				if !writes[dest.Block()] {
+					for _, sc := range dest.Block().Succs {
+						dfs(sc)
+					}
+				}
+			}
+			c.Check(header != nil && !skips, rule, fmt.Sprintf("mergeBatches|validity-window#%d", n), dest.Pos(), "every path writes the window (copy or fill)", "a path through mergeBatches takes a column's validity window for a batch and reaches the next iteration without writing it: for a batch that tracks validity for other columns only, this column's rows stay marked NULL and their values are lost from the stored file")
+		}
+		c.Check(n >= 1, rule, "mergeBatches|windows", fn.Pos(), fmt.Sprintf("%d validity window(s) inspected", n), "no validity window found in mergeBatches (rule needs review)")
+	}
+}
